@@ -66,7 +66,7 @@ def unit_memo():
 def jobs(tier):
     m = ("strict",)
     js = [(unit_memo, ())]
-    js += D.g_dispatch(m) + D.g_structs(m) + D.g_arrays(m) + D.g_frames(m) + D.g_leaf(m, deep=1) + D.g_region(m, tier) + D.g_pump(("strict", "warn")) + D.g_typed(("INT", "VALID"))
+    js += D.g_dispatch(m) + D.g_structs(m) + D.g_arrays(m) + D.g_frames(m) + D.g_leaf(("strict", "warn"), deep=1) + D.g_region(("strict", "warn"), tier) + D.g_pump(("strict", "warn")) + D.g_typed(("INT", "VALID"))
     return js
 
 
